@@ -86,6 +86,7 @@ pub fn run(args: &[String]) {
     let seed = seed_from_env() ^ 0x66;
     let mut ns: Vec<usize> = (1..hi).collect();
     ns.extend(crate::k1::structured(seed, nstruct, max_bits).into_iter().filter(|&n| n >= 1));
+    ns.extend(crate::util::ANCHOR_LENS.iter().copied().filter(|&n| (n as u64) < (1u64 << max_bits)));
     let shared = Shared::new();
     ns.par_iter().for_each(|&n| {
         let mut rep = Report::default();
